@@ -82,7 +82,7 @@ func c17One(c *core.Ctx, i int64, toks []lang.Tok, r *rand.Rand, hostile bool, t
 			return cs
 		}
 		// Interpret must not return results
-		res := Interpret(src)
+		res := InterpretReused(src)
 		if res.Panic != "" {
 			c.Violation(panicSig(res.Panic, res.Stack), "Interpret panicked: "+res.Panic, det())
 			return cs
